@@ -17,7 +17,7 @@
 (* Text is a sequence of character codes so that TLC can take it apart;    *)
 (* the harness renders it with chr().                                      *)
 (*                                                                         *)
-(* Five enumerator machines share the variables (mode selects one; the     *)
+(* Six enumerator machines share the variables (mode selects one; the      *)
 (* variables of the others stay at a dummy value):                         *)
 (*   "col"    walk over the columns 1..16384 (successor machine; several   *)
 (*            start columns only keep the search shallow),                 *)
